@@ -11,6 +11,128 @@ FDT = "sender::fdt::Fdt"
 FDTI = "common::fdtinstance::FdtInstance"
 
 
+EXTRACTION_TEXT = ("receiver-side per-file extraction: get_oti_for_file prefers the File element's FEC-OTI over the "
+                   "FDT-Instance's; File::get_transfer_length prefers Transfer-Length over Content-Length over 0; "
+                   "File::get_oti and FdtInstance::get_oti map each FEC-OTI attribute to the same Oti field")
+
+
+def receiver_extraction_rule(ctx, r6):
+    prog = ctx.prog
+    fallback_chain(r6, prog, FDTI + "::get_oti_for_file",
+                   [("File FEC-OTI", r"File::get_oti\(&file\)", r"File::get_oti\(&file\)"),
+                    ("FDT-Instance FEC-OTI", r"FdtInstance::get_oti\(&self\)", r"FdtInstance::get_oti\(&self\)")], "get_oti_for_file")
+    fallback_chain(r6, prog, "common::fdtinstance::File::get_transfer_length",
+                   [("Transfer-Length", r"self\.transfer_length", r"self\.transfer_length$"),
+                    ("Content-Length", r"self\.content_length", r"self\.content_length$"),
+                    ("0", r"^0$", r"^$")], "File::get_transfer_length")
+    maps = {}
+    for fp in ("common::fdtinstance::File::get_oti", FDTI + "::get_oti"):
+        g_ = prog.fn(fp)
+        ctx.analysed(fp)
+        sg = Slicer(g_.body)
+        cons_ = [(blk.i, st) for blk in g_.body.blocks if not blk.cleanup for st in blk.stmts
+                 if st.k == "assign" and st.rv.k == "aggr" and st.rv.j.get("adt") == "common::oti::Oti"]
+        if len(cons_) != 1:
+            raise model.AnchorMissing("%s builds %d Oti values" % (fp, len(cons_)))
+        bb_, st = cons_[0]
+        names_ = st.rv.j["fnames"]
+        m_ = {}
+        for i_, n_ in enumerate(names_):
+            ex_ = sg.expand(sg.x.operand(st.rv.ops[i_]))
+            m_[n_] = (show(ex_, 400), sorted(set(z for z in sg.sources(sg.x.operand(st.rv.ops[i_])) if z.startswith("var:self."))), ex_)
+        maps[fp] = (m_, st)
+
+    def attrs(e):
+        return set(re.sub(r"@.*$", "", show(c)) for c in walk(e) if c[0] == "var" and show(c).startswith("self."))
+    ONE = {"fec_instance_id": "self.fec_oti_fec_instance_id", "maximum_source_block_length": "self.fec_oti_maximum_source_block_length",
+           "encoding_symbol_length": "self.fec_oti_encoding_symbol_length"}
+    DEP = {"fec_encoding_id": "var:self.fec_oti_fec_encoding_id", "scheme_specific": "var:self.fec_oti_scheme_specific_info"}
+    for fp, (m_, st) in sorted(maps.items()):
+        short = "::".join(fp.split("::")[-2:])
+        for n_, want in sorted(ONE.items()):
+            txt, srcs, ex_ = m_[n_]
+            key = "%s Oti.%s" % (short, n_)
+            if attrs(ex_) == {want}:
+                r6.ok(key, txt[:80], loc(st.sp))
+            else:
+                r6.violation(key, "Oti.%s is built from %s; expected exactly the attribute %s" % (n_, txt[:120], want), loc(st.sp))
+        for n_, want in sorted(DEP.items()):
+            txt, srcs, ex_ = m_[n_]
+            key = "%s Oti.%s" % (short, n_)
+            if any(z == want or z.startswith(want + "@") or z.startswith(want + ".") for z in srcs):
+                r6.ok(key, "<- %s" % want[4:], loc(st.sp))
+            else:
+                r6.violation(key, "Oti.%s does not derive from %s (sources %s)" % (n_, want[4:], srcs), loc(st.sp))
+        txt, srcs, ex_ = m_["max_number_of_parity_symbols"]
+        key = "%s Oti.max_number_of_parity_symbols" % short
+        sub = [c for c in walk(ex_) if (c[0] == "call" and re.search(r"::(saturating_sub|wrapping_sub|checked_sub)$", c[1]) and len(c[2]) == 2)
+               or (c[0] == "bin" and c[1].startswith("Sub"))]
+        okp = False
+        for c in sub:
+            l_, r_ = (c[2][0], c[2][1]) if c[0] == "call" else (c[2], c[3])
+            if "self.fec_oti_max_number_of_encoding_symbols" in attrs(l_) and attrs(l_) <= {"self.fec_oti_max_number_of_encoding_symbols", "self.fec_oti_maximum_source_block_length"} \
+                    and attrs(r_) == {"self.fec_oti_maximum_source_block_length"}:
+                okp = True
+        if okp:
+            r6.ok(key, "max encoding symbols (default B) - B", loc(st.sp))
+        else:
+            r6.violation(key, "parity = %s; expected (max_number_of_encoding_symbols or B) - B" % txt[:200], loc(st.sp))
+    a_, b_ = (maps["common::fdtinstance::File::get_oti"][0], maps[FDTI + "::get_oti"][0])
+    for n_ in sorted(a_):
+        key = "File::get_oti / FdtInstance::get_oti agree on Oti.%s" % n_
+        if a_[n_][0] == b_.get(n_, (None,))[0]:
+            r6.ok(key, "", loc(maps[FDTI + "::get_oti"][1].sp))
+        else:
+            r6.violation(key, "File: %s ; FdtInstance: %s" % (a_[n_][0][:100], b_.get(n_, ("?",))[0][:100]), loc(maps[FDTI + "::get_oti"][1].sp))
+
+
+def fdt_bytes_rule(ctx, rule):
+    """the FDT instance's bytes reach FdtInstance::parse unaltered"""
+    prog = ctx.prog
+    FWI = "receiver::fdtreceiver::FdtWriterInner"
+    ty = field_type(prog, FWI, "data")
+    if re.match(r"^(std|alloc)::vec::Vec<u8>$", ty):
+        rule.ok("FdtWriterInner.data type", ty, "src/receiver/fdtreceiver.rs")
+    else:
+        rule.violation("FdtWriterInner.data type", "the FDT reassembly buffer is a `%s`: pieces are written per source block / inflate buffer, any per-piece text "
+                                                   "conversion alters multi-byte characters that straddle a piece boundary" % ty, "src/receiver/fdtreceiver.rs")
+    W = "<receiver::fdtreceiver::FdtWriter as receiver::writer::ObjectWriter>::write"
+    w = prog.fn(W)
+    ctx.analysed(w.path)
+    grow = [s for s, ai, mut in calls_on_field(prog, FWI, "data", funcs=[w]) if method_name(s) in ("extend", "extend_from_slice", "append", "push_str", "push")]
+    from ..cfg import strip_ref
+    if grow and all(show(strip_ref(s.expr[2][1])) == "data" for s in grow):
+        rule.ok("FdtWriter::write appends the written slice", method_name(grow[0]), grow[0].loc)
+    else:
+        rule.violation("FdtWriter::write appends the written slice", "the buffer grows by %s, not by the `data` slice itself" % [show(s.expr[2][1], 60) for s in grow], loc(w.sp))
+    C = "<receiver::fdtreceiver::FdtWriter as receiver::writer::ObjectWriter>::complete"
+    c = prog.fn(C)
+    ps = call_sites(c, lambda p, cc: p == FDTI + "::parse")
+    if ps and all(re.search(r"inner\)?\.data", show(s.expr[2][0], 120)) for s in ps):
+        rule.ok("FdtWriter::complete parses the buffer", "", ps[0].loc)
+    else:
+        rule.violation("FdtWriter::complete parses the buffer", "FdtInstance::parse is fed %s" % [show(s.expr[2][0], 60) for s in ps], loc(c.sp))
+
+
+def fdtid_width_rule(ctx, rule):
+    """every value stored in Fdt.fdtid fits the 20-bit FDT Instance ID field (shared with C06: push_fdt ORs the id with the version and HET)"""
+    prog = ctx.prog
+    n = 0
+    for a in field_accesses(prog, FDT, "fdtid"):
+        if a["kind"] not in ("assign", "construct"):
+            continue
+        n += 1
+        rng = operand_range_at(prog, a)
+        key = "%s %s Fdt.fdtid fits 20 bits" % (a["func"].root().path.split("::")[-1], a["kind"])
+        if rng is not None and rng[0] >= 0 and rng[1] <= 2 ** 20 - 1:
+            rule.ok(key, "range [%s, %s]" % rng, loc(a["sp"]))
+        else:
+            rule.violation(key, "Fdt.fdtid receives %s with range %s: push_fdt ORs the id into EXT_FDT without masking, so bits above 19 overwrite the version "
+                                "(and the HET)" % (show(a["value"], 50), rng), loc(a["sp"]))
+    if n < 2:
+        raise model.AnchorMissing("Fdt.fdtid: %d writes found" % n)
+
+
 def operand_range_at(prog, a):
     """E4 interval of the operand stored by the aggregate/assignment access `a` (field_accesses record)"""
     f = a["func"]
@@ -242,76 +364,11 @@ def run(ctx):
     r5.floor(5, "listing facts")
 
     # ---- R6 receiver-side extraction -----------------------------------------------------------
-    r6 = ctx.rule("C10.R6", "receiver-side per-file extraction: get_oti_for_file prefers the File element's FEC-OTI over the "
-                            "FDT-Instance's; File::get_transfer_length prefers Transfer-Length over Content-Length over 0; "
-                            "File::get_oti and FdtInstance::get_oti map each FEC-OTI attribute to the same Oti field", "fallback order + sibling agreement")
-    fallback_chain(r6, prog, FDTI + "::get_oti_for_file",
-                   [("File FEC-OTI", r"File::get_oti\(&file\)", r"File::get_oti\(&file\)"),
-                    ("FDT-Instance FEC-OTI", r"FdtInstance::get_oti\(&self\)", r"FdtInstance::get_oti\(&self\)")], "get_oti_for_file")
-    fallback_chain(r6, prog, "common::fdtinstance::File::get_transfer_length",
-                   [("Transfer-Length", r"self\.transfer_length", r"self\.transfer_length$"),
-                    ("Content-Length", r"self\.content_length", r"self\.content_length$"),
-                    ("0", r"^0$", r"^$")], "File::get_transfer_length")
-    maps = {}
-    for fp in ("common::fdtinstance::File::get_oti", FDTI + "::get_oti"):
-        g_ = prog.fn(fp)
-        ctx.analysed(fp)
-        sg = Slicer(g_.body)
-        cons_ = [(blk.i, st) for blk in g_.body.blocks if not blk.cleanup for st in blk.stmts
-                 if st.k == "assign" and st.rv.k == "aggr" and st.rv.j.get("adt") == "common::oti::Oti"]
-        if len(cons_) != 1:
-            raise model.AnchorMissing("%s builds %d Oti values" % (fp, len(cons_)))
-        bb_, st = cons_[0]
-        names_ = st.rv.j["fnames"]
-        m_ = {}
-        for i_, n_ in enumerate(names_):
-            ex_ = sg.expand(sg.x.operand(st.rv.ops[i_]))
-            m_[n_] = (show(ex_, 400), sorted(set(z for z in sg.sources(sg.x.operand(st.rv.ops[i_])) if z.startswith("var:self."))), ex_)
-        maps[fp] = (m_, st)
-
-    def attrs(e):
-        return set(re.sub(r"@.*$", "", show(c)) for c in walk(e) if c[0] == "var" and show(c).startswith("self."))
-    ONE = {"fec_instance_id": "self.fec_oti_fec_instance_id", "maximum_source_block_length": "self.fec_oti_maximum_source_block_length",
-           "encoding_symbol_length": "self.fec_oti_encoding_symbol_length"}
-    DEP = {"fec_encoding_id": "var:self.fec_oti_fec_encoding_id", "scheme_specific": "var:self.fec_oti_scheme_specific_info"}
-    for fp, (m_, st) in sorted(maps.items()):
-        short = "::".join(fp.split("::")[-2:])
-        for n_, want in sorted(ONE.items()):
-            txt, srcs, ex_ = m_[n_]
-            key = "%s Oti.%s" % (short, n_)
-            if attrs(ex_) == {want}:
-                r6.ok(key, txt[:80], loc(st.sp))
-            else:
-                r6.violation(key, "Oti.%s is built from %s; expected exactly the attribute %s" % (n_, txt[:120], want), loc(st.sp))
-        for n_, want in sorted(DEP.items()):
-            txt, srcs, ex_ = m_[n_]
-            key = "%s Oti.%s" % (short, n_)
-            if any(z == want or z.startswith(want + "@") or z.startswith(want + ".") for z in srcs):
-                r6.ok(key, "<- %s" % want[4:], loc(st.sp))
-            else:
-                r6.violation(key, "Oti.%s does not derive from %s (sources %s)" % (n_, want[4:], srcs), loc(st.sp))
-        txt, srcs, ex_ = m_["max_number_of_parity_symbols"]
-        key = "%s Oti.max_number_of_parity_symbols" % short
-        sub = [c for c in walk(ex_) if (c[0] == "call" and re.search(r"::(saturating_sub|wrapping_sub|checked_sub)$", c[1]) and len(c[2]) == 2)
-               or (c[0] == "bin" and c[1].startswith("Sub"))]
-        okp = False
-        for c in sub:
-            l_, r_ = (c[2][0], c[2][1]) if c[0] == "call" else (c[2], c[3])
-            if "self.fec_oti_max_number_of_encoding_symbols" in attrs(l_) and attrs(l_) <= {"self.fec_oti_max_number_of_encoding_symbols", "self.fec_oti_maximum_source_block_length"} \
-                    and attrs(r_) == {"self.fec_oti_maximum_source_block_length"}:
-                okp = True
-        if okp:
-            r6.ok(key, "max encoding symbols (default B) - B", loc(st.sp))
-        else:
-            r6.violation(key, "parity = %s; expected (max_number_of_encoding_symbols or B) - B" % txt[:200], loc(st.sp))
-    a_, b_ = (maps["common::fdtinstance::File::get_oti"][0], maps[FDTI + "::get_oti"][0])
-    for n_ in sorted(a_):
-        key = "File::get_oti / FdtInstance::get_oti agree on Oti.%s" % n_
-        if a_[n_][0] == b_.get(n_, (None,))[0]:
-            r6.ok(key, "", loc(maps[FDTI + "::get_oti"][1].sp))
-        else:
-            r6.violation(key, "File: %s ; FdtInstance: %s" % (a_[n_][0][:100], b_.get(n_, ("?",))[0][:100]), loc(maps[FDTI + "::get_oti"][1].sp))
-    r6.floor(20, "extraction facts")
+    r6 = ctx.rule("C10.R6", EXTRACTION_TEXT + "; the FDT receiver hands the instance's bytes to the XML parser unaltered (FdtWriterInner.data is a "
+                            "byte vector extended with the written slice itself)", "fallback order + sibling agreement + TYP")
+    receiver_extraction_rule(ctx, r6)
+    fdt_bytes_rule(ctx, r6)
+    r6.floor(23, "extraction facts")
 
     # ---- R7 renewal before expiry ---------------------------------------------------------------
     r7 = ctx.rule("C10.R7", "renewal: Fdt::current_fdt_will_expire answers true whenever the time since last_publish has reached the configured "
